@@ -12,7 +12,9 @@ Scalars keep their real 4x64-bit representation (R = 1 value model): the ladders
 "scalar" here is any 256-bit string whose *symbolic* windows are chosen by the harness and whose other windows are
 concrete; the expected group element is (sum of windows * weight) mod n'.
 """
-from .common import tm, X, MOD, new_machine
+from .common import tm, X, MOD, new_machine, point_tree, point_get
+
+PROG = {'p': None}
 from . import fieldalg as FA, models
 
 W = 16
@@ -23,6 +25,7 @@ POINT_T = MOD + '.Point'
 
 def machine(prog, ctx, gl, toy, scalar_mul='uf'):
     m = new_machine(prog, ctx, gl, value_model=True)
+    PROG['p'] = prog
     alg = FA.ToyField(toy.p)
     g = toy.G
     FA.install(m, alg, {ROOT + 'feGX': g[0], ROOT + 'feGY': g[1]})   # generator mapped by role; b, 3b are read from the tree
@@ -30,7 +33,7 @@ def machine(prog, ctx, gl, toy, scalar_mul='uf'):
     return m, alg
 
 
-def point(m, alg, toy, name, k, lam, valid=True):
+def point(m, alg, toy, name, k, lam, valid=True, extra='zero'):
     """projective representative (lam*x_k, lam*y_k, lam) of k*G', or (0, lam, 0) for k = 0 (lam != 0)"""
     if isinstance(k, tm.T):
         isid = tm.eq(k, 0, W)
@@ -41,13 +44,13 @@ def point(m, alg, toy, name, k, lam, valid=True):
         x, y, z = 0, lam, 0
     else:
         x, y, z = alg.mul(lam, toy.mult[k][0]), alg.mul(lam, toy.mult[k][1]), lam
-    tree = [[], X.Abs('fe', x), X.Abs('fe', y), X.Abs('fe', z), valid]
+    tree = point_tree(m, name, X.Abs('fe', x), X.Abs('fe', y), X.Abs('fe', z), valid, extra=extra)
     return m.new_obj(None, tree=tree, label='Point:' + name)
 
 
 def index_of(alg, toy, o):
     """(valid, k): is the object a valid projective point, and which group element"""
-    x, y, z = [FA.leaf_value(o.tree[i]) for i in (1, 2, 3)]
+    x, y, z = [FA.leaf_value(point_get(PROG['p'], o, f)) for f in ('x', 'y', 'z')]
     zi = alg.inv(z)
     ax, ay = alg.mul(x, zi), alg.mul(y, zi)
     on, k = toy.on_curve(ax, ay)
